@@ -20,14 +20,21 @@ pub enum Real {
     Open(St),
 }
 
+/// One step of the path that led to a node: a persistent linked list, so that a node costs O(1) memory for its history.
+pub struct Link {
+    pub prev: Option<Arc<Link>>,
+    pub label: String,
+    pub action: Option<Action>,
+    pub root: Option<Value>,
+    pub len: usize,
+}
+
 #[derive(Clone)]
 pub struct Node {
     pub real: Real,
     pub model: RefState,
-    /// labels of the actions that led here (shortest path: BFS)
-    pub path: Arc<Vec<String>>,
-    /// replayable form of the path
-    pub trace: Arc<Vec<Value>>,
+    /// the actions that led here (shortest path: BFS), with a replayable form of each
+    pub link: Arc<Link>,
     /// headers of the sealed states on the honest segment leading here (reset by a jump), oldest first
     pub lineage: Arc<Vec<Header>>,
     /// part of the state key: 1 after a restart, so that the continuation of a rebuilt state is explored in its own right
@@ -95,14 +102,27 @@ impl Node {
         }
         *h.finalize().as_bytes()
     }
+    pub fn new_root(real: Real, model: RefState, label: String, root: Value, lineage: Vec<Header>) -> Node {
+        Node { real, model, link: Arc::new(Link { prev: None, label, action: None, root: Some(root), len: 1 }), lineage: Arc::new(lineage), salt: 0 }
+    }
+    /// Labels of the path, oldest first.
+    pub fn labels(&self) -> Vec<String> {
+        let mut v = vec![];
+        let mut cur = Some(&self.link);
+        while let Some(l) = cur {
+            v.push(l.label.clone());
+            cur = l.prev.as_ref();
+        }
+        v.reverse();
+        v
+    }
+    pub fn path_len(&self) -> usize {
+        self.link.len
+    }
     pub fn path_str(&self) -> String {
-        self.path.join(" ; ")
+        self.labels().join(" ; ")
     }
     fn child(&self, real: Real, model: RefState, a: &Action) -> Node {
-        let mut p = (*self.path).clone();
-        p.push(a.label());
-        let mut t = (*self.trace).clone();
-        t.push(a.json());
         let mut lineage = self.lineage.clone();
         match (a, &real) {
             (Action::Seal(_), Real::Sealed(s)) => {
@@ -114,10 +134,21 @@ impl Node {
             _ => {}
         }
         let salt = if matches!(a, Action::Restart) { 1 } else { self.salt };
-        Node { real, model, path: Arc::new(p), trace: Arc::new(t), lineage, salt }
+        let link = Arc::new(Link { prev: Some(self.link.clone()), label: a.label(), action: Some(a.clone()), root: None, len: self.link.len + 1 });
+        Node { real, model, link, lineage, salt }
     }
     pub fn replay_json(&self, next: Option<&Action>) -> Value {
-        let mut t = (*self.trace).clone();
+        let mut t = vec![];
+        let mut cur = Some(&self.link);
+        while let Some(l) = cur {
+            t.push(match (&l.action, &l.root) {
+                (Some(a), _) => a.json(),
+                (None, Some(r)) => r.clone(),
+                _ => json!(null),
+            });
+            cur = l.prev.as_ref();
+        }
+        t.reverse();
         if let Some(a) = next {
             t.push(a.json());
         }
@@ -1114,6 +1145,10 @@ pub fn bfs_with(
     visit: &(dyn Fn(&Node) + Sync),
     on_successor: &(dyn Fn(&Node, &Action, &Node) + Sync),
 ) -> SearchStats {
+    // give memory freed by earlier scenarios back to the system, so that the resident-set cap measures this search
+    unsafe {
+        libc::malloc_trim(0);
+    }
     let mut seen: HashSet<[u8; 32]> = HashSet::new();
     let mut frontier: Vec<Node> = vec![];
     for r in roots {
